@@ -124,5 +124,32 @@ func VerifC07_Topology() {
 	}
 	name := []string{"delete-p1", "delete-p2", "p1-new-upstreams", "p1-new-destination", "delete-node", "same-id-other-node", "failed-txn-then-delete-p1"}[op]
 	vTopologyInvariants(s, "C07.topology."+name)
+	vUsageInvariants(s, "C07.topology."+name)
 	verifrt.Reached("end")
+}
+
+// usage counts equal what is recomputed from the node and service tables
+func vUsageInvariants(s *Store, pfx string) {
+	nodes := len(vDump(s, tableNodes))
+	names := map[string]bool{}
+	instances := 0
+	byKind := map[string]int{}
+	for _, r := range vDump(s, tableServices) {
+		sn := r.(*structs.ServiceNode)
+		names[sn.ServiceName] = true
+		instances++
+		switch {
+		case sn.ServiceConnect.Native:
+			byKind["connect-native"]++
+		case sn.ServiceKind != structs.ServiceKindTypical:
+			byKind[string(sn.ServiceKind)]++
+		}
+	}
+	_, nu, err := s.NodeUsage()
+	verifrt.Assert(pfx+".node-usage-agrees", err == nil && nu.Nodes == nodes)
+	_, su, err := s.ServiceUsage(nil, false)
+	verifrt.Assert(pfx+".service-usage-agrees", err == nil && su.Services == len(names) && su.ServiceInstances == instances)
+	for _, k := range []string{"connect-native", "connect-proxy", "terminating-gateway", "ingress-gateway", "mesh-gateway"} {
+		verifrt.Assert(pfx+".connect-usage-agrees", su.ConnectServiceInstances[k] == byKind[k])
+	}
 }
